@@ -345,8 +345,16 @@ func HookCopyFrom(suffix string, _ diag.Diagnostics, v attr.Value, target interf
 	}
 }
 
+// NilResults makes the CopyTo hooks return a nil attr.Value (a legal, if unusual, thing for user code to do):
+// the generated code has to store exactly what the hook returns.
+var NilResults bool
+
 // HookCopyTo is the back end of CopyTo<S>.
 func HookCopyTo(suffix string, _ diag.Diagnostics, field interface{}, t attr.Type, cur attr.Value) attr.Value {
+	if NilResults {
+		logCall(Call{Hook: "CopyTo", Suffix: suffix, Field: field, Type: t, Current: cur, Result: nil})
+		return nil
+	}
 	mu.Lock()
 	serial++
 	s := serial
